@@ -11,3 +11,12 @@ CLAIMED["C13"] = (
  "static analysis: AST-type reachability + Format field-coverage over all data-statement node types, switch exhaustiveness of SQLVal.Format, who-may-write rule over SSA stores into AST fields outside the parser",
  "Decides for every AST struct type reachable from data statements that each field is read by its Format method (181 fields today), that ParenExpr/SQLVal printing keeps parentheses, every literal kind and casts, and that code outside the parser only overwrites the value/comparison fields the documented substitutions need. Necessary conditions for 'the re-serialised statement parses back to the same tree'; Parse(String(t))==t itself, quoting and escaping are not decided.",
  NOTE, "DESIGN.md §2 C13")
+
+CLAIMED["C01"] = (
+ "static analysis: SSA value-pairing rule at every container serialisation site, dominance/reachability rule for the pass-through guard in the six encrypt entry points, constant/handler agreement in the eight translator operations, sibling rule over all gRPC methods and HTTP handlers (delegate to the common service, no direct envelope/key calls)",
+ "Decides that every serialisation labels the envelope with the id of the handler that produced it, that no envelope-creating call is reachable from an 'already protected' test edge and that edge returns the input itself, that each translator operation selects the handler of its own envelope kind, and that all 11 RPCs / 13 HTTP handlers are the same operation as the common service. Necessary conditions for 'protect-then-reveal returns the original'; byte equality of the round trip, tag scanning inside column values and the crypto itself are not decided.",
+ NOTE, "DESIGN.md §2 C01")
+CLAIMED["C02"] = (
+ "static analysis: method-set completeness + dominance rule for the gRPC identity override, interprocedural backward provenance (call-graph closed) of every per-client key lookup and every key-encryption context, must-reach value-flow for token/hash scoping",
+ "Decides completely that the identity named inside a gRPC request is overwritten by the connection identity on every RPC (enumerated from the service interfaces, so a new RPC is picked up), that HTTP operations take the identity only from the connection, that every data-plane key lookup uses an identity that traces back to the request/connection/column owner, that every stored key is encrypted with owner+purpose context derived from the same id, and that token ids/storage contexts absorb the client id. That different ids yield different keys and that AEAD rejects a wrong key are delegated to Themis and not decided.",
+ NOTE, "DESIGN.md §2 C02")
